@@ -116,6 +116,7 @@ def recheck (nodes : Array (NetNode × String)) (impl : Array (Option BV4)) : Li
       | .signal => ins.getD 0 none
       | .node k _ => some (evalNode k n.w ins)
       | .input _ => impl.getD i none
+      | .tristate _ => impl.getD i none   -- not produced by the C01 harness
     match impl.getD i none with
     | none => vals := vals.set! i (if name == "sig" then model else none)
     | some v =>
@@ -163,6 +164,7 @@ def autoCycle (nodes : Array (NetNode × String)) (impl : Array (Option BV4)) (r
       | .signal => ins.getD 0 none
       | .node k _ => (match impl.getD i none with | none => none | some _ => some (evalNode k n.w ins))   -- a node without simulator state (optimised away) has none
       | .input _ => if name == "reg" then (match regs with | some r => r.getD i none | none => impl.getD i none) else impl.getD i none
+      | .tristate _ => impl.getD i none   -- not produced by the C01 harness
     vals := vals.set! i model
     match impl.getD i none, model with
     | some v, some m =>
@@ -270,6 +272,29 @@ partial def loop (h : IO.FS.Stream) (c : Case) (st : Stats) : IO Stats := do
       -- after a difference the run is restarted from the simulator's values so that one cause is reported once
       let c := { c with auto := if abad.isEmpty then (tag, cycN, avals) :: c.auto.filter (·.1 != tag) else c.auto.filter (·.1 != tag) }
       loop h c st
+  | "cs" :: selS :: w :: ndata :: rest =>
+    -- Circuit::removeConstSelectMuxes on one multiplexer: model decision (DIFF) and the meaning of the implementation's decision (PROPFAIL)
+    let w := w.toNat!; let nd := ndata.toNat!
+    let dataVals : List (Option BV4) := (rest.take nd).map fun v => some (BV4.ofString v)
+    let res := (rest.drop (nd + 1)).headD "?"
+    let mut st := { st with rwCases := st.rwCases + 1, ops := st.ops + 1 }
+    let model : String := if selS == "pin" then "stay" else
+      match constSelectBypass (BV4.ofString selS) nd with | some k => toString k | none => "stay"
+    st := { st with rwHist := bump st.rwHist (if res == "stay" then "constselect_stays" else "constselect_bypassed") }
+    if model != res then
+      IO.println s!"DIFF case={c.id} what=removeConstSelectMuxes sel={selS} ndata={nd} model={model} impl={res}"
+      st := { st with diffs := st.diffs + 1 }
+    if res != "stay" && selS != "pin" then
+      let k := res.toNat?.getD 1000
+      let muxVal := evalMux w (some (BV4.ofString selS) :: dataVals)
+      let byp := copyIn w (dataVals.getD k none)
+      if muxVal != byp then
+        IO.println s!"PROPFAIL case={c.id} what=removeConstSelectMuxes pass=removeConstSelectMuxes sel={selS} bypassed_to={res} mux_value={BV4.toString muxVal} input_value={BV4.toString byp}"
+        st := { st with propfails := st.propfails + 1 }
+    if res != "stay" && selS == "pin" then
+      IO.println s!"PROPFAIL case={c.id} what=removeConstSelectMuxes pass=removeConstSelectMuxes a mux with a non-constant selector was bypassed to input {res}"
+      st := { st with propfails := st.propfails + 1 }
+    loop h { c with isRw := true } st
   | ["rwk", s] =>
     let ks : List CK := if s == "." then [] else (s.splitOn ",").map fun t => if t == "z" then CK.zero else if t == "o" then CK.one else CK.other
     loop h { c with isRw := true, rwKinds := ks } st
